@@ -11,19 +11,25 @@ import LyModel.Valid.FullExact
 leaves).  This file states them for the FULL schema language of the model of `src/validation.c` + `lyd_new_implicit`:
 `choice` / `case` in any nesting, mandatory choices, default cases, `default` on leaves and leaf-lists, non-presence containers
 (mandatory descendants seen through them, as `lyd_validate_mandatory` / `lys_getnext` do), `min-elements` / `max-elements` on
-(leaf-)lists inside cases, state data — and `verdict_order_independent`.  Helper lemmas: `LyModel/Valid/Full*.lean`,
+(leaf-)lists inside cases, state data, `unique` statements whose targets sit inside containers / choices / cases (defaults in use) —
+and `verdict_order_independent`, `operational_relaxes`, `multi_error_set_exact`.  Helper lemmas: `LyModel/Valid/Full*.lean`,
 `LyModel/Valid/LemmasPerm.lean`; correspondence with the C: `tools/checks/c02.py`.
 
 **Hypotheses** (all decidable; `FullSane` through `fullSaneB`, `fullSane_of_B`):
 * the schema (`FullSane X o`, LyModel/Valid/FullPipe.lean) is what `lys_compile` lets through — on every data level the children of
   choices are cases, the data nodes have different ids (`LevelSane`); `min-elements ≤ max-elements < 2³²`; a mandatory leaf has no
-  default (RFC 7950 §7.6.4), a mandatory choice no default case (§7.9.4), a leaf-list with defaults neither `min-elements` nor
-  `max-elements`; no mandatory node directly in a default case, and a non-presence container there has no mandatory descendant
+  default (RFC 7950 §7.6.4), a mandatory choice no default case (§7.9.4), a leaf-list with defaults has no `min-elements` and at
+  most `max-elements` default values; no mandatory node directly in a default case, and a non-presence container there has no mandatory descendant
   (§7.9.3, libyang: "Mandatory node … under the default case"); `config false` is inherited (§7.21.1).  libyang's compiler was run at
-  every excluded point (DESIGN-notes/valchoice.md): all are refused, except a leaf-list with MORE default values than
-  `max-elements`, which compiles and then makes every instance without explicit entries invalid (finding F320).
-* the code variant: `lyd_new_implicit` completes the case of THIS choice (`X.q.implicitInnerCase = false`, the repaired F180, which
-  is what `tools/extractors/valid.py` finds in the source: `Quirks.current`).
+  every excluded point (DESIGN-notes/valchoice.md; law `compiler-guarantee` of tools/checks/c02.py on every run): all are refused,
+  except a leaf-list with MORE default values than `max-elements`, which compiles and then makes every instance without explicit
+  entries invalid (finding F320, replayed by the check; fixes/F320.diff).
+* the code variant: `lyd_new_implicit` completes the case of THIS choice (`X.q.implicitInnerCase = false`, the repaired F180) and
+  `lyd_validate_unique` counts a default only where it is in use (`X.q.uniqueDefaultAlways = false`, the repaired F175) — what
+  `tools/extractors/valid.py` finds in the source: `Quirks.current`.
+* `unique` statements (`UniqPathsOk`, `NodeLookupOk`; for the order theorem `UniqueWF`): non-empty; every leaf is found by the schema
+  path (`pathTo`, with the specification's fuel and the model's) on which the flat table (`uniqChain`) and the schema tree agree, and
+  a case on that path is the first of its name in its choice.
 * the instance (`goodL X X.top t`) is as `lyd_new_*` / the parsers leave it: every node carries `LYD_NEW` and nothing else, is an
   instance of a data node of its level, a term node iff its schema node is a leaf / leaf-list; sibling lists shorter than 2³².
   **Excluded**: an instance that contains an EMPTY non-presence container node (it carries `LYD_DEFAULT`): the specification drops
@@ -239,5 +245,31 @@ example : (∀ K, K ∈ violations XfullU {} tFullBad1 ↔ ∃ e ∈ (validate X
   have hdc : EKind.dupCase ∉ violations XfullU {} tFullBad1 := by rw [hv]; simp
   have H := multi_error_set_exact XfullU {} rfl h1 h2 h3 h4 h5 h6 h7 tFullBad1 h8 h9 h10 (by decide) hdc
   exact ⟨H, (H .noMandChoice).1 (by rw [hv]; simp), hdc⟩
+
+/-! ## the source tree at hand -/
+
+/-- **the variant of the code the check runs against is the one the theorems speak about**: the two facts `tools/extractors/valid.py`
+reads off `src/tree_data_new.c` / `src/validation.c` (`Generated/ValidConsts.lean`) — `lyd_new_implicit` completes the case of the
+choice it is working on (F180 repaired), `lyd_validate_unique` uses a leaf's default only where it is in use (F175 repaired).  When
+one of them stops holding in the source this theorem, and with it `validate_ok_iff_valid_current`, stops building, and the check
+reports a broken proof obligation. -/
+theorem current_source_is_repaired :
+    Quirks.current.implicitInnerCase = false ∧ Quirks.current.uniqueDefaultAlways = false := by decide
+
+/-- **`validate_ok_iff_valid_full` for the schemas the driver builds** (`SchemaX.ofSchema` / `SchemaX.ofHex`: `q := Quirks.current`),
+i.e. for the model exactly as `tools/checks/c02.py` compares it with libyang on every run -/
+theorem validate_ok_iff_valid_current (S : Schema) (u : List (Nat × List Nat)) (o : VOpts) (hop : o.operational = false)
+    (hl : KidsLookupOk (SchemaX.ofSchema S u)) (hnl : NodeLookupOk (SchemaX.ofSchema S u)) (hio : InfoOk (SchemaX.ofSchema S u))
+    (hs : FullSane (SchemaX.ofSchema S u) o) (hup : UniqPathsOk (SchemaX.ofSchema S u)) (t : List DNode)
+    (hg : goodL (SchemaX.ofSchema S u) (SchemaX.ofSchema S u).top t = true) (hlen0 : t.length ≤ uint32Max)
+    (hh : sheightL (SchemaX.ofSchema S u).top ≤ walkFuel (SchemaX.ofSchema S u) t) :
+    (buildL S t = none ∧ (validate (SchemaX.ofSchema S u) o t).errs = []) ↔ Valid (SchemaX.ofSchema S u) o t :=
+  validate_ok_iff_valid_full (SchemaX.ofSchema S u) o hop current_source_is_repaired.1 current_source_is_repaired.2 hl hnl hio hs hup t hg hlen0 hh
+
+/-- non-vacuity: the witness schema as the driver builds it -/
+example : (buildL Sfull tFullOk = none ∧ (validate (SchemaX.ofSchema Sfull [(1, [6, 15]), (1, [12])]) {} tFullOk).errs = []) ↔
+    Valid (SchemaX.ofSchema Sfull [(1, [6, 15]), (1, [12])]) {} tFullOk :=
+  validate_ok_iff_valid_current Sfull _ {} rfl (lookupOk_of_B _ (by decide)) (nodeLookupOk_of_B _ (by decide)) (infoOk_of_B _ (by decide))
+    (fullSane_of_B _ _ (by decide)) (uniqPathsOk_of_B _ (by decide)) tFullOk (by decide) (by decide) (by decide)
 
 end LyModel.Props.C02
